@@ -41,7 +41,7 @@ Value& IPHASEExpression::value(Context & ctx) const
     break;
   case Type::IMAGINARY:
     if (val.isNull())
-      return val;
+      break;
     v = Value(Numeric(std::arg(IMAGINARY_TO_COMPLEX(*val.imaginary()))));
     break;
   default:
